@@ -522,13 +522,28 @@ class C10(Suite):
         return store, front, default
 
     def _omega(self, case, op, store, front, default):
+        def prescribed():
+            # no WITH/USING: the store's own dataset.  With the switch off its default graph is the real default
+            # graph whatever the front end: evaluated on an independent copy (a Dataset with default_union False,
+            # switch off) so that the solution list does not depend on how QueryContext picks ctx.graph.  With the
+            # switch on the front end's own reading is taken (ConjunctiveGraph: union; see notes, F10j, for Dataset).
+            if case["union"] or not isinstance(case["fe"], str):
+                return front
+            copy = Dataset()
+            for s_, p_, o_, g_ in ConjunctiveGraph(store=store, identifier=default).quads((None, None, None)):
+                if tkey(g_.identifier) == tkey(default):
+                    copy.add((s_, p_, o_))
+                else:
+                    copy.add((s_, p_, o_, g_.identifier))
+            return copy
+
         if op[0] == "delwhere":
             text = r_tmpl(op[1])
-            target = front
+            target = prescribed()
         else:
             _, w, ud, un, d, i, wk = op
             text = WHERES[wk][0]
-            target = front
+            target = front if (ud or un or w is not None) else prescribed()
             if ud or un:
                 # the dataset SPARQL 1.1 Update 3.1.3 prescribes: default graph = merge of the USING graphs
                 # (empty when only USING NAMED is given), named graphs = the USING NAMED graphs
